@@ -311,7 +311,8 @@ def prov_copy_complete(repo, tier="quick"):
         gs_bad = []
         for test, pol, gid in gs:
             t = fl.canon(test, gid)
-            if pol and t[0] == "cmp" and t[1] == ("!=",) and t[2][0][0] == "sub" and t[2][1][0] == "sub" and t[2][0][1] == t[2][1][1]:
+            if t[0] == "cmp" and ((pol and t[1] == ("!=",)) or ((not pol) and t[1] == ("==",))) and t[2][0][0] == "sub" and t[2][1][0] == "sub" and \
+                    t[2][0][1] == t[2][1][1]:
                 continue
             gs_bad.append(test)
         ok_range = ok_range and not gs_bad and m[0] == src
